@@ -122,6 +122,13 @@ class SimLoop(asyncio.BaseEventLoop):
     async def shutdown_default_executor(self, timeout=None) -> None:
         return None
 
+    def stall(self, d: float) -> None:
+        """The running callback blocks the thread for d seconds (CPU-bound / synchronous work): the clock moves, nothing
+        else runs; timers that became due meanwhile fire afterwards in deadline order."""
+        if d > 0:
+            self.clock.t += d
+            self.stats["stalls"] = self.stats.get("stalls", 0) + 1
+
     # -- quiescence -------------------------------------------------------
     def quiesce(self) -> asyncio.Future:
         """Future resolved at the next stable instant at which no timer is due
